@@ -6,6 +6,99 @@ Open Scope string_scope.
 Open Scope list_scope.
 Open Scope N_scope.
 
+Section CV.
+Variable cv : variant.
+Local Notation is_simple_id := (SmtSer.is_simple_id cv) (only parsing).
+Local Notation escape_id := (SmtSer.escape_id cv) (only parsing).
+Local Notation ser := (SmtSer.ser cv) (only parsing).
+Local Notation ser_cmd := (SmtSer.ser_cmd cv) (only parsing).
+Local Notation name_ok := (SmtSer.name_ok cv) (only parsing).
+Local Notation declared := (SmtSer.declared cv) (only parsing).
+Local Notation symbols_declared := (SmtSer.symbols_declared cv) (only parsing).
+Local Notation lx_go := (SmtLex.lx_go cv) (only parsing).
+Local Notation lex_impl := (SmtLex.lex_impl cv) (only parsing).
+Local Notation early_other := (SmtParse.early_other cv) (only parsing).
+Local Notation early_parse := (SmtParse.early_parse cv) (only parsing).
+Local Notation step := (SmtParse.step cv) (only parsing).
+Local Notation run := (SmtParse.run cv) (only parsing).
+Local Notation parse_eot := (SmtParse.parse_eot cv) (only parsing).
+Local Notation parse_expr_internal := (SmtParse.parse_expr_internal cv) (only parsing).
+Local Notation parse_type := (SmtParse.parse_type cv) (only parsing).
+Local Notation parse_expr_toks := (SmtParse.parse_expr_toks cv) (only parsing).
+Local Notation parse_expr_str := (SmtParse.parse_expr_str cv) (only parsing).
+Local Notation skip_expr := (SmtParse.skip_expr cv) (only parsing).
+Local Notation parse_get_value_response_toks := (SmtParse.parse_get_value_response_toks cv) (only parsing).
+Local Notation parse_get_value_response_str := (SmtParse.parse_get_value_response_str cv) (only parsing).
+Local Notation parse_expr_list_go := (SmtParse.parse_expr_list_go cv) (only parsing).
+Local Notation parse_expr_list_rest := (SmtParse.parse_expr_list_rest cv) (only parsing).
+Local Notation parse_unsat_assumptions_toks := (SmtParse.parse_unsat_assumptions_toks cv) (only parsing).
+Local Notation parse_unsat_assumptions_str := (SmtParse.parse_unsat_assumptions_str cv) (only parsing).
+Local Notation parse_command_body := (SmtParse.parse_command_body cv) (only parsing).
+Local Notation parse_command_toks := (SmtParse.parse_command_toks cv) (only parsing).
+Local Notation parse_command_str := (SmtParse.parse_command_str cv) (only parsing).
+Local Notation count_parens := (SmtParse.count_parens cv) (only parsing).
+Local Notation rc_balance := (SmtParse.rc_balance cv) (only parsing).
+Local Notation read_command := (SmtParse.read_command cv) (only parsing).
+Local Notation is_simple_id_loop := (SmtSerLemmas.is_simple_id_loop cv) (only parsing).
+Local Notation is_simple_id_chars := (SmtSerLemmas.is_simple_id_chars cv) (only parsing).
+Local Notation is_simple_id_first := (SmtSerLemmas.is_simple_id_first cv) (only parsing).
+Local Notation escape_sound_gen := (SmtSerLemmas.escape_sound_gen cv) (only parsing).
+Local Notation escape_sound_lemma := (SmtSerLemmas.escape_sound_lemma cv) (only parsing).
+Local Notation good := (SmtSerProofs.good cv) (only parsing).
+Local Notation symbols_declared_app := (SmtSerProofs.symbols_declared_app cv) (only parsing).
+Local Notation name_ok_facts := (SmtSerProofs.name_ok_facts cv) (only parsing).
+Local Notation symbol_good := (SmtSerProofs.symbol_good cv) (only parsing).
+Local Notation ser_core := (SmtSerProofs.ser_core cv) (only parsing).
+Local Notation ser_eq := (SmtSerProofs.ser_eq cv) (only parsing).
+Local Notation core_good := (SmtSerProofs.core_good cv) (only parsing).
+Local Notation wrap_good_e := (SmtSerProofs.wrap_good_e cv) (only parsing).
+Local Notation ser_good := (SmtSerProofs.ser_good cv) (only parsing).
+Local Notation ser_sorted_sound_lemma := (SmtSerProofs.ser_sorted_sound_lemma cv) (only parsing).
+Local Notation name_ok_intro := (SmtSerProofs.name_ok_intro cv) (only parsing).
+Local Notation noop_slice_latent := (SmtSerProofs.noop_slice_latent cv) (only parsing).
+Local Notation cont := (SmtParseProofs.cont cv) (only parsing).
+Local Notation runs_to := (SmtParseProofs.runs_to cv) (only parsing).
+Local Notation run_cons := (SmtParseProofs.run_cons cv) (only parsing).
+Local Notation cont_nonempty := (SmtParseProofs.cont_nonempty cv) (only parsing).
+Local Notation run_items := (SmtParseProofs.run_items cv) (only parsing).
+Local Notation run_group := (SmtParseProofs.run_group cv) (only parsing).
+Local Notation runs_value := (SmtParseProofs.runs_value cv) (only parsing).
+Local Notation runs_escaped := (SmtParseProofs.runs_escaped cv) (only parsing).
+Local Notation atom_item := (SmtParseProofs.atom_item cv) (only parsing).
+Local Notation sxi := (SmtParseProofs.sxi cv) (only parsing).
+Local Notation sxi_list := (SmtParseProofs.sxi_list cv) (only parsing).
+Local Notation sxi_list_eq := (SmtParseProofs.sxi_list_eq cv) (only parsing).
+Local Notation machine_sx := (SmtParseProofs.machine_sx cv) (only parsing).
+Local Notation early_plain := (SmtParseProofs.early_plain cv) (only parsing).
+Local Notation early_other_lookup := (SmtParseProofs.early_other_lookup cv) (only parsing).
+Local Notation early_other_kw := (SmtParseProofs.early_other_kw cv) (only parsing).
+Local Notation simple_plain := (SmtParseProofs.simple_plain cv) (only parsing).
+Local Notation table_for := (SmtParseProofs.table_for cv) (only parsing).
+Local Notation keys_ok := (SmtParseProofs.keys_ok cv) (only parsing).
+Local Notation theory_not_ok := (SmtParseProofs.theory_not_ok cv) (only parsing).
+Local Notation atom_head := (SmtParseProofs.atom_head cv) (only parsing).
+Local Notation simple_not_kw := (SmtParseProofs.simple_not_kw cv) (only parsing).
+Local Notation atom_symbol := (SmtParseProofs.atom_symbol cv) (only parsing).
+Local Notation head_item := (SmtRoundTrip.head_item cv) (only parsing).
+Local Notation numeral_item := (SmtRoundTrip.numeral_item cv) (only parsing).
+Local Notation bitvec_item := (SmtRoundTrip.bitvec_item cv) (only parsing).
+Local Notation elem_item := (SmtRoundTrip.elem_item cv) (only parsing).
+Local Notation ser_type_arr_item := (SmtRoundTrip.ser_type_arr_item cv) (only parsing).
+Local Notation syms_in := (SmtRoundTrip.syms_in cv) (only parsing).
+Local Notation lit_item := (SmtRoundTrip.lit_item cv) (only parsing).
+Local Notation sxi_wrap := (SmtRoundTrip.sxi_wrap cv) (only parsing).
+Local Notation early_bits := (SmtRoundTrip.early_bits cv) (only parsing).
+Local Notation early_zeros := (SmtRoundTrip.early_zeros cv) (only parsing).
+Local Notation sxi_ser := (SmtRoundTrip.sxi_ser cv) (only parsing).
+Local Notation parse_ser_lemma := (SmtRoundTrip.parse_ser_lemma cv) (only parsing).
+Local Notation run_state := (SmtRoundTrip.run_state cv) (only parsing).
+Local Notation end_of_tokens := (SmtRoundTrip.end_of_tokens cv) (only parsing).
+Local Notation run_app_state := (SmtRoundTrip.run_app_state cv) (only parsing).
+Local Notation run_nil := (SmtRoundTrip.run_nil cv) (only parsing).
+Local Notation truncated_lemma := (SmtRoundTrip.truncated_lemma cv) (only parsing).
+Local Notation trailing_token_error_lemma := (SmtRoundTrip.trailing_token_error_lemma cv) (only parsing).
+
+
 (** ** commands: what the writer emits is read back *)
 
 (** the command the reader returns for the writer's output of [c] *)
@@ -14,7 +107,7 @@ Definition rt_cmd (c : smt_cmd) : smt_cmd :=
   | CAssert e => CAssert (rt e false)
   | CDefineConst s v => CDefineConst s (rt v false)
   | CGetValue e => CGetValue (rt e false)
-  | CCheckSatAssuming [e] => CCheckSatAssuming [rt e false]
+  | CCheckSatAssuming es => CCheckSatAssuming (map (fun e => rt e false) es)
   | c => c
   end.
 
@@ -22,17 +115,17 @@ Definition expr_rt_ok (top : symtab) (e : expr) : Prop :=
   wt e = true /\ built e = true /\ idx32 e = true /\ table_for top e.
 
 Definition keys_clean (top : symtab) : Prop :=
-  forall n, name_ok n = false \/ all_digits n = true -> assoc_str n top = None.
+  forall n, name_ok n = false \/ (cv = Cur /\ kw_tok n = true) -> assoc_str n top = None.
 
 Definition ty32 (t : ty) : Prop :=
   match t with TBV w => 0 < w /\ w < 2 ^ 32 | TArr i d => 0 < i /\ i < 2 ^ 32 /\ 0 < d /\ d < 2 ^ 32 end.
 
-(** which commands round-trip (the others are the recorded defects) *)
+(** which commands round-trip; the conditions [cv = Fix] and [cv = Cur -> ..] are the recorded defects
+    of the current code, which the repaired variant does not have *)
 Definition cmd_rt_pre (top : symtab) (c : smt_cmd) : Prop :=
   match c with
   | CAssert e | CGetValue e => expr_rt_ok top e
-  | CCheckSatAssuming [e] => expr_rt_ok top e
-  | CCheckSatAssuming _ => False
+  | CCheckSatAssuming es => (cv = Cur -> length es = 1%nat) /\ Forall (expr_rt_ok top) es
   | CDeclareConst s =>
       keys_clean top /\ exists n, symbol_name_of s = Some n /\ name_ok n = true /\ s = sym_of n (type_of s) /\ ty32 (type_of s)
   | CDefineConst s v =>
@@ -40,7 +133,8 @@ Definition cmd_rt_pre (top : symtab) (c : smt_cmd) : Prop :=
       exists n, symbol_name_of s = Some n /\ name_ok n = true /\ s = sym_of n (type_of s) /\ ty32 (type_of s)
   | CPush n | CPop n => n < 2 ^ 64
   | CSetOption k v => symbol_name (escape_id v) = Some v
-  | CSetInfo _ _ | CGetUnsatAssumptions => False
+  | CSetInfo k v => cv = Fix /\ symbol_name (escape_id v) = Some v
+  | CGetUnsatAssumptions => cv = Fix
   | CExit | CCheckSat | CSetLogic _ => True
   end.
 
@@ -65,7 +159,7 @@ Qed.
 
 Lemma name_token n : name_ok n = true -> forall rest, value_token (ltok_of_atom (escape_id n) :: rest) = POk (n, rest).
 Proof.
-  intros Hn rest. destruct (name_ok_facts n Hn) as (Hs & _). unfold escape_id in *.
+  intros Hn rest. destruct (name_ok_facts n Hn) as (Hs & _). unfold SmtSer.escape_id in *.
   destruct (is_simple_id n) eqn:Es.
   - destruct n as [|c r]; [discriminate|]. unfold ltok_of_atom. rewrite (is_simple_id_first _ c r eq_refl Es). reflexivity.
   - change (String.append "|" (String.append n "|")) with (String c_bar (String.append n "|")) in *.
@@ -90,16 +184,74 @@ Proof.
   intros (Hwt & Hbu & Hix & Hsy & Hkeys).
   pose proof (sxi_ser (nst_new top) Hkeys e Hwt Hbu Hix Hsy mb) as Hs.
   assert (Hg : sxi (nst_new top) (SxList [ser e mb]) = POk (IExpr (rt e mb))).
-  { rewrite sxi_list_eq. cbn [sxi_list]. rewrite Hs. reflexivity. }
+  { rewrite sxi_list_eq. cbn [SmtParseProofs.sxi_list]. rewrite Hs. reflexivity. }
   destruct (machine_sx (nst_new top) _ _ Hg) as [Hr _]. now rewrite (Hr [] rest I).
+Qed.
+
+Lemma body_gua top toks :
+  parse_command_body top "get-unsat-assumptions" toks = match cv with Cur => PErr | Fix => POk (CGetUnsatAssumptions, toks) end.
+Proof. reflexivity. Qed.
+
+Lemma cv_cases : cv = Cur \/ cv = Fix.
+Proof. destruct cv; [left | right]; reflexivity. Qed.
+
+Lemma match_cur {A} (a b : A) : cv = Cur -> match cv with Cur => a | Fix => b end = a.
+Proof. intros E. rewrite E. reflexivity. Qed.
+
+Lemma match_fix {A} (a b : A) : cv = Fix -> match cv with Cur => a | Fix => b end = b.
+Proof. intros E. rewrite E. reflexivity. Qed.
+
+Lemma any_token v : symbol_name (escape_id v) = Some v ->
+  forall rest, any_string_token (ltok_of_atom (escape_id v) :: rest) = POk (v, rest).
+Proof.
+  intros Hs rest. unfold SmtSer.escape_id in *. destruct (is_simple_id v) eqn:Es.
+  - destruct v as [|c r]; [discriminate|]. unfold ltok_of_atom. rewrite (is_simple_id_first _ c r eq_refl Es). reflexivity.
+  - change (String.append "|" (String.append v "|")) with (String c_bar (String.append v "|")) in *.
+    unfold ltok_of_atom. change (Ascii.eqb c_bar c_bar) with true. cbv iota.
+    unfold symbol_name in Hs. change (Ascii.eqb c_bar c_bar) with true in Hs. cbv iota in Hs. rewrite Hs. reflexivity.
+Qed.
+
+(** the list of assumptions (repaired reader): [parse_expr_list] up to the closing parenthesis *)
+Definition first_ok (h : ltok) : bool := match h with TkOpen | TkValue _ | TkEscaped _ => true | _ => false end.
+
+Lemma toks_head t : exists h r, toks_of_sx t = h :: r /\ first_ok h = true.
+Proof.
+  destruct t as [a | l].
+  - exists (ltok_of_atom a), []. split; [reflexivity|]. unfold ltok_of_atom. destruct a as [|c r]; [reflexivity|].
+    destruct (Ascii.eqb c c_bar); [destruct (quoted_body r)|]; reflexivity.
+  - rewrite toks_list. eexists _, _. split; reflexivity.
+Qed.
+
+Lemma list_step fuel h r st acc : first_ok h = true ->
+  parse_expr_list_rest (S fuel) (h :: r) st acc =
+  pbind (parse_expr_internal (h :: r) st) (fun r0 => let '(e, st', rest) := r0 in parse_expr_list_rest fuel rest st' (e :: acc)).
+Proof. intros H. destruct h; try discriminate H; reflexivity. Qed.
+
+Lemma run_list top es : Forall (expr_rt_ok top) es -> forall fuel acc rest, (length es < fuel)%nat ->
+  parse_expr_list_rest fuel (concat (map toks_of_sx (map (fun e => ser e false) es)) ++ TkClose :: rest) (nst_new top) acc
+  = POk (rev acc ++ map (fun e => rt e false) es, rest).
+Proof.
+  induction 1 as [|e es He Hes IH]; intros fuel acc rest Hf.
+  - destruct fuel; [inversion Hf|]. cbn [map concat app SmtParse.parse_expr_list_rest next_no_comment pbind]. now rewrite app_nil_r.
+  - destruct fuel as [|fuel]; [inversion Hf|]. cbn [map concat]. rewrite <- app_assoc.
+    pose proof (run_expr top e false (concat (map toks_of_sx (map (fun e => ser e false) es)) ++ TkClose :: rest) He) as R.
+    destruct (toks_head (ser e false)) as (h & r & Eh & Hh). rewrite Eh in *. cbn [app] in *.
+    rewrite (list_step _ _ _ _ _ Hh). unfold SmtParse.parse_expr_internal, SmtParse.parse_eot. rewrite R. cbn [pbind].
+    rewrite IH by (cbn [length] in Hf; lia). cbn [rev map]. now rewrite <- app_assoc.
+Qed.
+
+Lemma toks_count (l : list sx) : (length l <= length (concat (map toks_of_sx l)))%nat.
+Proof.
+  induction l as [|t l IH]; [apply le_n|]. cbn [map concat length]. rewrite app_length.
+  destruct (toks_head t) as (h & r & -> & _). cbn [length]. lia.
 Qed.
 
 Theorem parse_cmd_ser_lemma :
   forall (top : symtab) (c : smt_cmd) (t : sx),
     cmd_rt_pre top c -> ser_cmd c = Ok t -> parse_command_toks top (toks_of_sx t) = POk (rt_cmd c).
 Proof.
-  intros top c t Hpre Hser. unfold parse_command_toks.
-  destruct c as [ | | l | k v | k v | e | s | s v | es | n | n | e | ]; cbn [cmd_rt_pre ser_cmd rt_cmd] in *;
+  intros top c t Hpre Hser. unfold SmtParse.parse_command_toks.
+  destruct c as [ | | l | k v | k v | e | s | s v | es | n | n | e | ]; cbn [cmd_rt_pre SmtSer.ser_cmd rt_cmd] in *;
     try contradiction.
   - inversion Hser; subst. reflexivity.
   - inversion Hser; subst. reflexivity.
@@ -107,13 +259,13 @@ Proof.
   - (* set-option *)
     inversion Hser; subst. rewrite toks_app1. cbn [map concat skip_open next_no_comment pbind].
     change (ltok_of_atom "set-option") with (TkValue "set-option"). cbn [next_no_comment pbind].
-    unfold parse_command_body.
+    unfold SmtParse.parse_command_body.
     change (String.eqb "set-option" "exit") with false. change (String.eqb "set-option" "check-sat") with false.
     change (String.eqb "set-option" "set-logic") with false. change (String.eqb "set-option" "set-option") with true. cbn [orb].
     unfold toks_of_sx. cbn [flatten map ltok_of app].
     change (ltok_of_atom (String ":" k)) with (TkValue (String ":" k)). cbn [value_token next_no_comment pbind snd fst].
     (* the value: a plain or a quoted symbol *)
-    unfold escape_id in *. destruct (is_simple_id v) eqn:Es.
+    unfold SmtSer.escape_id in *. destruct (is_simple_id v) eqn:Es.
     + destruct v as [|c r]; [discriminate|]. unfold ltok_of_atom. rewrite (is_simple_id_first _ c r eq_refl Es).
       cbn [any_string_token next_no_comment pbind fst snd String.append]. change (Ascii.eqb ":" ":") with true. cbv iota.
       cbn [skip_close next_no_comment pbind]. reflexivity.
@@ -122,34 +274,46 @@ Proof.
       unfold symbol_name in Hpre. change (Ascii.eqb c_bar c_bar) with true in Hpre. cbv iota in Hpre. rewrite Hpre.
       cbn [any_string_token next_no_comment pbind fst snd String.append]. change (Ascii.eqb ":" ":") with true. cbv iota.
       cbn [skip_close next_no_comment pbind]. reflexivity.
+  - (* set-info: the repaired variant only *)
+    destruct Hpre as [Ec Hpre]. rewrite (match_fix _ _ Ec) in Hser.
+    inversion Hser; subst t. rewrite toks_app1. cbn [map concat skip_open next_no_comment pbind].
+    change (ltok_of_atom "set-info") with (TkValue "set-info"). cbn [next_no_comment pbind].
+    unfold SmtParse.parse_command_body.
+    change (String.eqb "set-info" "exit") with false. change (String.eqb "set-info" "check-sat") with false.
+    change (String.eqb "set-info" "set-logic") with false. change (String.eqb "set-info" "set-option") with false.
+    change (String.eqb "set-info" "set-info") with true. cbn [orb].
+    unfold toks_of_sx. cbn [flatten map ltok_of app].
+    change (ltok_of_atom (String ":" k)) with (TkValue (String ":" k)). cbn [value_token next_no_comment pbind snd fst].
+    rewrite (any_token v Hpre). cbn [pbind fst snd String.append]. change (Ascii.eqb ":" ":") with true. cbv iota.
+    cbn [skip_close next_no_comment pbind]. reflexivity.
   - (* assert *)
     inversion Hser; subst. rewrite toks_app1. cbn [map concat skip_open next_no_comment pbind].
     change (ltok_of_atom "assert") with (TkValue "assert"). cbn [next_no_comment pbind].
-    unfold parse_command_body.
+    unfold SmtParse.parse_command_body.
     change (String.eqb "assert" "exit") with false. change (String.eqb "assert" "check-sat") with false.
     change (String.eqb "assert" "set-logic") with false.
     change (String.eqb "assert" "set-option" || String.eqb "assert" "set-info") with false.
     change (String.eqb "assert" "assert") with true. cbv iota.
-    unfold parse_expr_internal, parse_eot. rewrite app_nil_r, (run_expr top e false [TkClose] Hpre).
+    unfold SmtParse.parse_expr_internal, SmtParse.parse_eot. rewrite app_nil_r, (run_expr top e false [TkClose] Hpre).
     cbn [pbind skip_close next_no_comment fst snd]. reflexivity.
   - (* declare-const *)
     destruct Hpre as (Hk & n & Hn & Hok & Hs & Hty). rewrite Hn in Hser. inversion Hser; subst t.
     rewrite toks_app1. cbn [map concat skip_open next_no_comment pbind].
     change (ltok_of_atom "declare-const") with (TkValue "declare-const"). cbn [next_no_comment pbind].
-    unfold parse_command_body.
+    unfold SmtParse.parse_command_body.
     change (String.eqb "declare-const" "exit") with false. change (String.eqb "declare-const" "check-sat") with false.
     change (String.eqb "declare-const" "set-logic") with false.
     change (String.eqb "declare-const" "set-option" || String.eqb "declare-const" "set-info") with false.
     change (String.eqb "declare-const" "assert") with false. change (String.eqb "declare-const" "declare-const") with true. cbv iota.
     rewrite app_nil_r. unfold toks_of_sx at 1. cbn [flatten map ltok_of app].
     rewrite (name_token n Hok). cbn [pbind fst snd].
-    unfold parse_type, parse_eot. rewrite (run_sort top _ [TkClose] Hk Hty). cbn [pbind].
+    unfold SmtParse.parse_type, SmtParse.parse_eot. rewrite (run_sort top _ [TkClose] Hk Hty). cbn [pbind].
     rewrite (mk_symbol_ok n _ Hty). cbn [pbind skip_close next_no_comment fst snd]. now rewrite <- Hs.
   - (* define-fun *)
     destruct Hpre as (Hv & Htv & n & Hn & Hok & Hs & Hty). rewrite Hn in Hser. inversion Hser; subst t.
     rewrite toks_app1. cbn [map concat skip_open next_no_comment pbind].
     change (ltok_of_atom "define-fun") with (TkValue "define-fun"). cbn [next_no_comment pbind].
-    unfold parse_command_body.
+    unfold SmtParse.parse_command_body.
     change (String.eqb "define-fun" "exit") with false. change (String.eqb "define-fun" "check-sat") with false.
     change (String.eqb "define-fun" "set-logic") with false.
     change (String.eqb "define-fun" "set-option" || String.eqb "define-fun" "set-info") with false.
@@ -159,27 +323,35 @@ Proof.
     rewrite app_nil_r. unfold toks_of_sx at 1 2. cbn [flatten flat_map map ltok_of app].
     rewrite (name_token n Hok). cbn [pbind fst snd skip_open skip_close next_no_comment].
     destruct Hv as (Hwt & Hbu & Hix & Hsy & Hkeys).
-    unfold parse_type, parse_eot. rewrite <- app_assoc. rewrite (run_sort top _ _ Hkeys Hty). cbn [pbind].
-    unfold parse_expr_internal, parse_eot. rewrite (run_expr top v false [TkClose] (conj Hwt (conj Hbu (conj Hix (conj Hsy Hkeys))))).
+    unfold SmtParse.parse_type, SmtParse.parse_eot. rewrite <- app_assoc. rewrite (run_sort top _ _ Hkeys Hty). cbn [pbind].
+    unfold SmtParse.parse_expr_internal, SmtParse.parse_eot. rewrite (run_expr top v false [TkClose] (conj Hwt (conj Hbu (conj Hix (conj Hsy Hkeys))))).
     cbn [pbind]. rewrite (rt_type v false Hwt Hbu), Htv, ty_eqb_refl.
     rewrite (mk_symbol_ok n _ Hty). cbn [pbind skip_close next_no_comment fst snd]. now rewrite <- Hs.
-  - (* check-sat-assuming with one assumption *)
-    destruct es as [|e [|e2 es]]; try contradiction. inversion Hser; subst t. cbn [map].
+  - (* check-sat-assuming: one assumption in the current code, any number in the repaired one *)
+    destruct Hpre as [Hlen Hall]. inversion Hser; subst t.
     rewrite toks_app1. cbn [map concat skip_open next_no_comment pbind].
     change (ltok_of_atom "check-sat-assuming") with (TkValue "check-sat-assuming"). cbn [next_no_comment pbind].
-    unfold parse_command_body.
+    unfold SmtParse.parse_command_body.
     change (String.eqb "check-sat-assuming" "exit") with false. change (String.eqb "check-sat-assuming" "check-sat") with false.
     change (String.eqb "check-sat-assuming" "set-logic") with false.
     change (String.eqb "check-sat-assuming" "set-option" || String.eqb "check-sat-assuming" "set-info") with false.
     change (String.eqb "check-sat-assuming" "assert") with false. change (String.eqb "check-sat-assuming" "declare-const") with false.
     change (String.eqb "check-sat-assuming" "declare-fun") with false. change (String.eqb "check-sat-assuming" "define-const") with false.
     change (String.eqb "check-sat-assuming" "define-fun") with false. change (String.eqb "check-sat-assuming" "check-sat-assuming") with true. cbv iota.
-    unfold parse_expr_internal, parse_eot. rewrite app_nil_r, (run_paren_expr top e false [TkClose] Hpre).
-    cbn [pbind skip_close next_no_comment fst snd]. reflexivity.
+    rewrite app_nil_r.
+    destruct cv_cases as [Ec | Ec].
+    + rewrite (match_cur _ _ Ec). specialize (Hlen Ec). destruct es as [|e [|e2 es]]; try discriminate Hlen.
+      inversion Hall as [|? ? He _]; subst. cbn [map].
+      unfold SmtParse.parse_expr_internal, SmtParse.parse_eot. rewrite (run_paren_expr top e false [TkClose] He).
+      cbn [pbind skip_close next_no_comment fst snd]. reflexivity.
+    + rewrite (match_fix _ _ Ec). rewrite toks_list. cbn [app skip_open next_no_comment pbind]. rewrite <- app_assoc. cbn [app].
+      rewrite (run_list top es Hall).
+      * cbn [pbind fst snd rev app skip_close next_no_comment]. reflexivity.
+      * rewrite app_length. pose proof (toks_count (map (fun e => ser e false) es)) as Hc. rewrite map_length in Hc. lia.
   - (* push *)
     inversion Hser; subst. rewrite toks_app1. cbn [map concat skip_open next_no_comment pbind].
     change (ltok_of_atom "push") with (TkValue "push"). cbn [next_no_comment pbind].
-    unfold parse_command_body. cbn [String.eqb Ascii.eqb Bool.eqb orb]. cbv iota.
+    unfold SmtParse.parse_command_body. cbn [String.eqb Ascii.eqb Bool.eqb orb]. cbv iota.
     unfold toks_of_sx. cbn [flatten map ltok_of app].
     destruct (all_digits_first _ (dec_string_digits n)) as (c & r & E & Hc & _).
     assert (Hb : ltok_of_atom (dec_string n) = TkValue (dec_string n)).
@@ -189,7 +361,7 @@ Proof.
   - (* pop *)
     inversion Hser; subst. rewrite toks_app1. cbn [map concat skip_open next_no_comment pbind].
     change (ltok_of_atom "pop") with (TkValue "pop"). cbn [next_no_comment pbind].
-    unfold parse_command_body. cbn [String.eqb Ascii.eqb Bool.eqb orb]. cbv iota.
+    unfold SmtParse.parse_command_body. cbn [String.eqb Ascii.eqb Bool.eqb orb]. cbv iota.
     unfold toks_of_sx. cbn [flatten map ltok_of app].
     destruct (all_digits_first _ (dec_string_digits n)) as (c & r & E & Hc & _).
     assert (Hb : ltok_of_atom (dec_string n) = TkValue (dec_string n)).
@@ -199,23 +371,53 @@ Proof.
   - (* get-value *)
     inversion Hser; subst. rewrite toks_app1. cbn [map concat skip_open next_no_comment pbind].
     change (ltok_of_atom "get-value") with (TkValue "get-value"). cbn [next_no_comment pbind].
-    unfold parse_command_body. cbn [String.eqb Ascii.eqb Bool.eqb orb]. cbv iota.
-    unfold parse_expr_internal, parse_eot. rewrite app_nil_r, (run_paren_expr top e false [TkClose] Hpre).
+    unfold SmtParse.parse_command_body. cbn [String.eqb Ascii.eqb Bool.eqb orb]. cbv iota.
+    unfold SmtParse.parse_expr_internal, SmtParse.parse_eot. rewrite app_nil_r, (run_paren_expr top e false [TkClose] Hpre).
     cbn [pbind skip_close next_no_comment fst snd]. reflexivity.
+  - (* get-unsat-assumptions: the repaired variant only *)
+    inversion Hser; subst t. rewrite toks_app1. cbn [map concat skip_open next_no_comment pbind].
+    change (ltok_of_atom "get-unsat-assumptions") with (TkValue "get-unsat-assumptions"). cbn [next_no_comment pbind].
+    rewrite body_gua, (match_fix _ _ Hpre). reflexivity.
 Qed.
 
-(** the writer's commands that the reader does not read back *)
+End CV.
+
+(** the writer's commands that the current reader does not read back *)
 Lemma cmd_not_read_back_witness :
-  (exists t, ser_cmd (CCheckSatAssuming [BVSymbol "a" 1; BVSymbol "b" 1]) = Ok t /\
-             parse_command_toks [("a", BVSymbol "a" 1); ("b", BVSymbol "b" 1)] (toks_of_sx t) = PErr) /\
-  (exists t, ser_cmd (CCheckSatAssuming []) = Ok t /\ parse_command_toks [] (toks_of_sx t) = PErr) /\
-  (exists t, ser_cmd CGetUnsatAssumptions = Ok t /\ parse_command_toks [] (toks_of_sx t) = PErr) /\
-  (exists t, ser_cmd (CSetInfo "status" "sat") = Ok t /\ parse_command_toks [] (toks_of_sx t) = POk (CSetOption "status" "sat")).
+  (exists t, ser_cmd Cur (CCheckSatAssuming [BVSymbol "a" 1; BVSymbol "b" 1]) = Ok t /\
+             parse_command_toks Cur [("a", BVSymbol "a" 1); ("b", BVSymbol "b" 1)] (toks_of_sx t) = PErr) /\
+  (exists t, ser_cmd Cur (CCheckSatAssuming []) = Ok t /\ parse_command_toks Cur [] (toks_of_sx t) = PErr) /\
+  (exists t, ser_cmd Cur CGetUnsatAssumptions = Ok t /\ parse_command_toks Cur [] (toks_of_sx t) = PErr) /\
+  (exists t, ser_cmd Cur (CSetInfo "status" "sat") = Ok t /\ parse_command_toks Cur [] (toks_of_sx t) = POk (CSetOption "status" "sat")).
 Proof. repeat split; eexists; split; try reflexivity; vm_compute; reflexivity. Qed.
 
-(** a symbol named like a numeral hides the index of the writer's own indexed operators *)
+(** ... and the repaired reader does *)
+Lemma cmd_read_back_fix_witness :
+  (exists t, ser_cmd Fix (CCheckSatAssuming [BVSymbol "a" 1; BVSymbol "b" 1]) = Ok t /\
+             parse_command_toks Fix [("a", BVSymbol "a" 1); ("b", BVSymbol "b" 1)] (toks_of_sx t) =
+             POk (CCheckSatAssuming [BVSymbol "a" 1; BVSymbol "b" 1])) /\
+  (exists t, ser_cmd Fix (CCheckSatAssuming []) = Ok t /\ parse_command_toks Fix [] (toks_of_sx t) = POk (CCheckSatAssuming [])) /\
+  (exists t, ser_cmd Fix CGetUnsatAssumptions = Ok t /\ parse_command_toks Fix [] (toks_of_sx t) = POk CGetUnsatAssumptions) /\
+  (exists t, ser_cmd Fix (CSetInfo "status" "sat") = Ok t /\ parse_command_toks Fix [] (toks_of_sx t) = POk (CSetInfo "status" "sat")).
+Proof. repeat split; eexists; split; try reflexivity; vm_compute; reflexivity. Qed.
+
+(** in the repaired variant every command of the writer is read back: the conditions left are those on
+    the expressions and names inside *)
+Theorem parse_cmd_ser_fix :
+  forall (top : symtab) (c : smt_cmd) (t : sx),
+    cmd_rt_pre Fix top c -> ser_cmd Fix c = Ok t -> parse_command_toks Fix top (toks_of_sx t) = POk (rt_cmd c).
+Proof. exact (parse_cmd_ser_lemma Fix). Qed.
+
+(** current code: a symbol named like a numeral hides the index of the writer's own indexed operators;
+    repaired: numerals are never looked up *)
 Lemma numeral_symbol_witness :
   let e := BVSlice (BVSymbol "x" 8) 3 0 in
   let top := [("x", BVSymbol "x" 8); ("3", BVSymbol "3" 1)] in
-  wt e = true /\ built e = true /\ parse_expr_toks top (toks_of_sx (ser e false)) = PErr.
+  wt e = true /\ built e = true /\ parse_expr_toks Cur top (toks_of_sx (ser Cur e false)) = PErr.
 Proof. vm_compute. repeat split. Qed.
+
+Lemma numeral_symbol_fix_witness :
+  let e := BVSlice (BVSymbol "x" 8) 3 0 in
+  let top := [("x", BVSymbol "x" 8); ("3", BVSymbol "3" 1)] in
+  parse_expr_toks Fix top (toks_of_sx (ser Fix e false)) = POk e.
+Proof. vm_compute. reflexivity. Qed.
